@@ -1039,6 +1039,67 @@ fn boundary(ctx: &mut Ctx) {
     }
 }
 
+// ---------------------------------------------------------------------------------------------------------
+// contended pivot search: many rows compete for mutually exclusive pivots in the PARALLEL phase of the pivot finder
+// (non-unit entries keep every competing row out of the two sequential phases); the reduction of C_1 --A--> C_0 must
+// terminate and satisfy the transfer identities on every thread count and on repeated runs in the same pool.
+// Checked with sparse arithmetic (the matrices are too large for the dense oracle); oracle-only stream.
+// ---------------------------------------------------------------------------------------------------------
+
+fn contended(ctx: &mut Ctx, r: &mut Rng, idx: usize) {
+    let groups = *r.pick(&[16usize, 32, 64, 128]);
+    let members = *r.pick(&[2usize, 4, 8, 16]);
+    let n = groups * members;
+    let nu = |r: &mut Rng| -> i64 { *r.pick(&[2i64, -2, 3, 2]) };
+    let mut e: Vec<(usize, usize, i64)> = vec![(0, 1, 1)];
+    for q in 0..n { e.push((0, 2 + q, nu(r))); }
+    for q in 0..n {
+        let g = q % groups;
+        e.push((1 + q, 0, nu(r)));
+        for k in 0..members {
+            let s = k * groups + g;
+            e.push((1 + q, 2 + s, if s == q { if r.bool() { 1 } else { -1 } } else { nu(r) }));
+        }
+    }
+    let a: SpMat<i64> = SpMat::from_entries((n + 1, n + 2), e).transpose();
+    let desc = format!("contended Z #{} groups={} members={} (A = B^T, B {}x{}: cover row + pairwise 2-cycles of non-units)", idx, groups, members, n + 1, n + 2);
+    let (m, nn) = a.shape();
+    let mut removed: Vec<Option<usize>> = vec![];
+    for &t in &[1usize, 2, 4, 16] {
+        let pool = ctx.pools.get(t);
+        for rep in 0..(if t == 1 { 1 } else if ctx.thorough { 6 } else { 3 }) {
+            let a2 = a.clone();
+            let res = guard(|| pool.install(|| {
+                let a3 = a2.clone();
+                let c = GenericChainComplex::generate(0..=1, -1, move |i| match i { 0 => SpMat::zero((0, m)), 1 => a3.clone(), _ => SpMat::zero((0, 0)) });
+                let red = ChainReducer::reduce(&c, true);
+                let s = red.matrix(1).unwrap().clone();
+                let (t0, t1) = (red.trans(0).unwrap().clone(), red.trans(1).unwrap().clone());
+                let (m1, n1) = s.shape();
+                let (f0, b0, f1, b1) = (t0.forward_mat(), t0.backward_mat(), t1.forward_mat(), t1.backward_mat());
+                let mut bad: Vec<&'static str> = vec![];
+                if f0.shape() != (m1, m) || f1.shape() != (n1, nn) || b0.shape() != (m, m1) || b1.shape() != (nn, n1) { bad.push("shapes"); }
+                else {
+                    if m - m1 != nn - n1 { bad.push("euler"); }
+                    if !(&f0 * &a2 - &s * &f1).is_zero() { bad.push("F d = d' F"); }
+                    if !(&a2 * &b1 - &b0 * &s).is_zero() { bad.push("d B = B d'"); }
+                    if !(&f0 * &b0 - SpMat::id(m1)).is_zero() || !(&f1 * &b1 - SpMat::id(n1)).is_zero() { bad.push("F B = 1"); }
+                    if s.iter().any(|(_, _, x)| *x == 1 || *x == -1) { bad.push("units left after deep reduction"); }
+                }
+                (m - m1, bad)
+            }));
+            let input = format!("{} threads={} rep={}", desc, t, rep);
+            match &res {
+                None => ctx.s.oracle(false, "ChainReducer::reduce terminates normally on every thread schedule", &input, "panic"),
+                Some((_, bad)) => ctx.s.oracle(bad.is_empty(), "reduced complex + transfer maps satisfy F d = d' F, d B = B d', F B = 1, Euler characteristic kept, no unit left — on every thread schedule", &input, &format!("{:?}", bad)),
+            }
+            removed.push(res.map(|x| x.0));
+        }
+    }
+    ctx.s.eval_only(&desc, removed.iter().any(|x| x.map_or(false, |k| k > 0)));
+    ctx.s.count("contended");
+}
+
 fn main() {
     let args = Args::parse();
     if std::env::var("C08_LOUD").is_err() { quiet_panics(); }
@@ -1061,6 +1122,7 @@ fn main() {
     let mut r = rng.fork(); kh_stream::<FF<3>>(&mut ctx, &mut r, &[(FF::<3>::from_i(0), FF::<3>::from_i(0)), (FF::<3>::from_i(0), FF::<3>::from_i(1))]);
     let mut r = rng.fork(); kh_stream::<Ratio<i64>>(&mut ctx, &mut r, &[(Ratio::from(0), Ratio::from(0))]);
     let mut r = rng.fork(); kh_stream::<ZH>(&mut ctx, &mut r, &[(ZH::variable(), ZH::from_const(0)), (ZH::from_const(0), ZH::from_const(0))]);
+    let mut r = rng.fork(); for i in 0..(if thorough { 24 } else { 4 }) { contended(&mut ctx, &mut r, i); }
     // the Schur step against its code model
     let sc = if thorough { 10000 } else { 300 };
     let mut r = rng.fork(); schur_stream::<i64>(&mut ctx, &mut r, sc);
